@@ -27,8 +27,67 @@ pub const TRAPS: [&str; 4] = ["strict", "ignore", "replace", "call"];
 pub const ENCS: [&str; 3] = ["utf-8", "utf-16le", "utf-16be"];
 const BIG: &str = "zzzzzzzzzzzzzzzzzzzzzzzzzzzzzzzzzzzzzzzzzzzzzzzzzzzzzzzzzzzzzzzz"; // 64 bytes
 
-pub fn exhaustive_count(l: usize) -> u64 {
+pub fn small_count(l: usize) -> u64 {
     (0..=l).map(|k| 10u64.pow(k as u32)).sum::<u64>() * 4
+}
+
+/// Sized inputs with a chosen tail ("Z-sized-tail"): the total stored length sits on / next to a
+/// block boundary (64 KiB, 1 MiB, 2 MiB) and the input ends in a complete character, a truncated
+/// UTF-8 sequence, a lone UTF-16 lead surrogate or an odd trailing byte.
+pub const Z_TOTALS: [usize; 9] = [65_535, 65_536, 65_537, 1_048_575, 1_048_576, 1_048_577, 2_097_151, 2_097_152, 2_097_153];
+pub const Z_TAILS: [&str; 5] = ["complete", "utf8-lead-only", "utf8-2-of-3", "utf16-lone-lead-surrogate", "odd-trailing-byte"];
+pub fn ztail_count() -> u64 {
+    (Z_TOTALS.len() * Z_TAILS.len() * 3 * 2 * 4) as u64
+}
+
+fn ztail_case(k: u64) -> Case {
+    let trap = TRAPS[(k % 4) as usize];
+    let k = k / 4;
+    let bom = k % 2 == 1;
+    let k = k / 2;
+    let enc = ENCS[(k % 3) as usize];
+    let k = k / 3;
+    let tail = Z_TAILS[(k % Z_TAILS.len() as u64) as usize];
+    let total = Z_TOTALS[((k / Z_TAILS.len() as u64) % Z_TOTALS.len() as u64) as usize];
+    // the tail bytes, in the stream's encoding
+    let tail_bytes: Vec<u8> = match (tail, enc) {
+        ("complete", _) => vec![],
+        ("utf8-lead-only", "utf-8") => vec![0xE4],
+        ("utf8-2-of-3", "utf-8") => vec![0xE4, 0xB8],
+        ("utf16-lone-lead-surrogate", "utf-16le") => vec![0x3D, 0xD8],
+        ("utf16-lone-lead-surrogate", "utf-16be") => vec![0xD8, 0x3D],
+        ("odd-trailing-byte", _) => vec![0x41],
+        // a tail that does not apply to this encoding: use the nearest equivalent
+        (_, "utf-8") => vec![0xF0, 0x9F],
+        (_, "utf-16le") => vec![0x3D, 0xD8],
+        _ => vec![0xD8, 0x3D],
+    };
+    let bom_len = if !bom { 0 } else if enc == "utf-8" { 3 } else { 2 };
+    let unit = if enc == "utf-8" { 1 } else { 2 };
+    let body_bytes = total.saturating_sub(bom_len + tail_bytes.len());
+    let n_chars = body_bytes / unit;
+    let mut text = String::with_capacity(n_chars + 8);
+    for i in 0..n_chars {
+        text.push(if i == 0 { 'k' } else if i == 1 { ':' } else if i == 2 { ' ' } else if i % 120 == 119 { ' ' } else { (b'a' + (i % 26) as u8) as char });
+    }
+    let mut bytes = encode(&text, enc, bom);
+    // UTF-16 bodies have even length: an odd total is reached through the tail
+    bytes.extend_from_slice(&tail_bytes);
+    Case {
+        prop: "C18".into(),
+        gen: "Z-sized-tail".into(),
+        bytes,
+        enc: enc.into(),
+        bom,
+        trap: trap.into(),
+        fault_free: false,
+        faults: vec![format!("sized-tail:{total}:{tail}")],
+        ..Case::default()
+    }
+}
+
+pub fn exhaustive_count(l: usize) -> u64 {
+    small_count(l) + ztail_count()
 }
 
 fn small_bytes(mut i: u64) -> Vec<u8> {
@@ -79,6 +138,9 @@ pub fn encode(text: &str, enc: &str, bom: bool) -> Vec<u8> {
 }
 
 pub fn generate(run_seed: u64, corpus: &Corpus, sw: &Swarm, i: u64, exhaustive: u64) -> Case {
+    if i < exhaustive && i >= exhaustive - ztail_count() {
+        return ztail_case(i - (exhaustive - ztail_count()));
+    }
     if i < exhaustive {
         return Case {
             prop: "C18".into(),
